@@ -199,6 +199,21 @@ MENU = [
     ("nan cell pvalue", "lightmotif.ScoringMatrix({'A': [nan], 'C': [1.0], 'G': [0.0], 'T': [0.0]}).pvalue(0.5)", N, True),
     ("inf cell scan", "hits(lightmotif.scan(lightmotif.ScoringMatrix({'A': [inf], 'C': [1.0], 'G': [0.0], 'T': [0.0]}), dna_seq(), threshold=-1.0))", N, True),
     ("inf cell pvalue", "lightmotif.ScoringMatrix({'A': [inf], 'C': [1.0], 'G': [0.0], 'T': [0.0]}).pvalue(0.5)", N, True),
+    ("cell beyond f32 (1e39) max_score", "lightmotif.ScoringMatrix({'A': [1e39], 'C': [1.0], 'G': [0.0], 'T': [0.0]}).max_score()", N, False),
+    ("cell beyond f32 (1e39) pvalue", "lightmotif.ScoringMatrix({'A': [1e39], 'C': [1.0], 'G': [0.0], 'T': [0.0]}).pvalue(0.5)", N, True),
+    ("cell beyond f32 (1e39) score", "lightmotif.ScoringMatrix({'A': [1e39], 'C': [1.0], 'G': [0.0], 'T': [0.0]}).score(0.5)", N, True),
+    ("cell beyond f32 (1e39) calculate", "list(lightmotif.ScoringMatrix({'A': [1e39], 'C': [1.0], 'G': [0.0], 'T': [0.0]}).calculate(dna_seq()))[:3]", N, False),
+    ("cell beyond f32 (1e39) scan", "hits(lightmotif.scan(lightmotif.ScoringMatrix({'A': [1e39], 'C': [1.0], 'G': [0.0], 'T': [0.0]}), dna_seq(), threshold=-1.0))", N, True),
+    ("cell beyond f32 (3.5e38) max_score", "lightmotif.ScoringMatrix({'A': [3.5e38], 'C': [1.0], 'G': [0.0], 'T': [0.0]}).max_score()", N, False),
+    ("cell beyond f32 (3.5e38) pvalue", "lightmotif.ScoringMatrix({'A': [3.5e38], 'C': [1.0], 'G': [0.0], 'T': [0.0]}).pvalue(0.5)", N, True),
+    ("cell beyond f32 (3.5e38) score", "lightmotif.ScoringMatrix({'A': [3.5e38], 'C': [1.0], 'G': [0.0], 'T': [0.0]}).score(0.5)", N, True),
+    ("cell beyond f32 (3.5e38) calculate", "list(lightmotif.ScoringMatrix({'A': [3.5e38], 'C': [1.0], 'G': [0.0], 'T': [0.0]}).calculate(dna_seq()))[:3]", N, False),
+    ("cell beyond f32 (3.5e38) scan", "hits(lightmotif.scan(lightmotif.ScoringMatrix({'A': [3.5e38], 'C': [1.0], 'G': [0.0], 'T': [0.0]}), dna_seq(), threshold=-1.0))", N, True),
+    ("cell beyond f32 (float max) max_score", "lightmotif.ScoringMatrix({'A': [1.7976931348623157e308], 'C': [1.0], 'G': [0.0], 'T': [0.0]}).max_score()", N, False),
+    ("cell beyond f32 (float max) pvalue", "lightmotif.ScoringMatrix({'A': [1.7976931348623157e308], 'C': [1.0], 'G': [0.0], 'T': [0.0]}).pvalue(0.5)", N, True),
+    ("cell beyond f32 (float max) score", "lightmotif.ScoringMatrix({'A': [1.7976931348623157e308], 'C': [1.0], 'G': [0.0], 'T': [0.0]}).score(0.5)", N, True),
+    ("cell beyond f32 (float max) calculate", "list(lightmotif.ScoringMatrix({'A': [1.7976931348623157e308], 'C': [1.0], 'G': [0.0], 'T': [0.0]}).calculate(dna_seq()))[:3]", N, False),
+    ("cell beyond f32 (float max) scan", "hits(lightmotif.scan(lightmotif.ScoringMatrix({'A': [1.7976931348623157e308], 'C': [1.0], 'G': [0.0], 'T': [0.0]}), dna_seq(), threshold=-1.0))", N, True),
     ("-inf cells scan all", "hits(lightmotif.scan(lightmotif.ScoringMatrix({'A': [-inf], 'C': [-inf], 'G': [-inf], 'T': [-inf]}), dna_seq(), threshold=-1.0))", N, True),
     ("-inf cells pvalue meme", "inf_pssm().pvalue(1.0)", N, True),
     ("-inf cells score meme", "inf_pssm().score(0.01)", N, True),
